@@ -3,7 +3,7 @@ use super::generic::*;
 use crate::engine::*;
 use crate::plan::*;
 use crate::sim::*;
-use crate::subject::orswot::SOrswot;
+use crate::subject::orswot::{SOrswot, SOrswotBig};
 
 /// add-wins situation present and known to some replica
 pub fn add_wins_situation<S: Subject>(sim: &Sim<S>) -> bool {
@@ -38,6 +38,21 @@ pub fn property() -> Property {
         ("Orswot/fifo/ops", Disc::Fifo, Weights::ops_only(), true, 24000, 150_000),
         ("Orswot/fifo/ops+merges+stale", Disc::Fifo, Weights::mixed(), true, 24000, 150_000),
     ];
+    for (label, disc, w, newest, q, t) in variants.clone() {
+        // the same four variants over a 16-member alphabet (big sets, big remove batches)
+        let label = format!("{label} [16 members]");
+        let (q, t) = (q / 4, t / 4);
+        let pc = PlanCfg::new(w).steps(4, 28);
+        let mut ctx = Ctx::new(disc);
+        ctx.cfg.newest_first = newest;
+        jobs.push(
+            job(label, q, t, { let pc = pc.clone(); move || plan_strategy(&pc) }, move |p: &Plan, st: &mut Stats| check_model::<SOrswotBig>(p, &ctx, st, &add_wins_situation::<SOrswotBig>, "Orswot read differs from the observed-remove/add-wins specification"))
+                .decoder({ let pc = pc.clone(); move |d: &[u8]| decode_plan(&pc, d) })
+                .encoder({ let pc = pc.clone(); move |t: &Plan| encode_plan(&pc, t) })
+                .floor("nontrivial", 0.015)
+                .boxed(),
+        );
+    }
     for (label, disc, w, newest, q, t) in variants {
         let pc = PlanCfg::new(w).steps(4, 28);
         let mut ctx = Ctx::new(disc);
